@@ -205,6 +205,12 @@ class Net:
             heapq.heappush(self._inflight, (round(nominal + delay, 6), self._seq, tr, (bytes(data), addr)))
         self._arm()
 
+    def inject(self, conn, delay, data):
+        """the peer sends on its own (not in answer to a write)"""
+        self._seq += 1
+        heapq.heappush(self._inflight, (round(round(self.loop.time(), 3) + delay, 6), self._seq, conn, bytes(data)))
+        self._arm()
+
     def _arm(self):
         if not self._inflight:
             return
